@@ -1,6 +1,6 @@
 from . import expr_container as e
 from .eri_orbenergy import EriOrbenergy
-from .indices import get_symbols, sort_idx_canonical
+from .indices import get_symbols, sort_idx_canonical, split_idx_string
 from .misc import Inputerror
 from .simplify import simplify
 from .sympy_objects import AntiSymmetricTensor, SymmetricTensor
@@ -251,12 +251,15 @@ def exploit_perm_sym(expr: e.Expr, target_indices: str | None = None,
             upper, lower = target_indices, ""
         # treat the spin
         if target_spin is not None:
+            # count the indices, not the characters: "i10j" are 2 indices
+            n_upper = len(split_idx_string(upper))
+            n_lower = len(split_idx_string(lower))
             if "," in target_spin:
                 upper_spin, lower_spin = target_spin.split(",")
             else:
-                upper_spin = target_spin[:len(upper)]
-                lower_spin = target_spin[len(upper):]
-            if len(upper) != len(upper_spin) or len(lower) != len(lower_spin):
+                upper_spin = target_spin[:n_upper]
+                lower_spin = target_spin[n_upper:]
+            if n_upper != len(upper_spin) or n_lower != len(lower_spin):
                 raise Inputerror(f"The target indices {target_indices} are "
                                  " not compatible with the provided spin "
                                  f"{target_spin}.")
